@@ -7,6 +7,7 @@ import DimModel.Spec.C10
 import DimModel.Proofs.C10
 import DimModel.Proofs.C10Sq
 import DimModel.Proofs.C10Bc
+import DimModel.Proofs.C10Pos
 namespace DimModel
 open Lib
 open C10
@@ -737,16 +738,264 @@ example (hsplit : ∀ t ∈ exC10Target.eraseIdx 1, PlainName t.name) :
     broadcast exC10 (exC10Target.eraseIdx 1) = .error .value :=
   (broadcast_spec exC10 exC10_wf (by decide) _ (by decide) (by decide) hsplit).2 (by decide)
 
-/-! ### observations on the mirror outside the hypotheses above (positions out of range)
+/-! ### integer positions are validated (`_get_axis_info`: `self.axes[idx]`), the first bad key decides the error class
 
-`Resolves` requires in-range positions.  Outside that domain the mirror's `_get_axes_info` does not
-validate integer keys: with both positions out of range `swapaxes` returns the array unchanged, and
-an out-of-range position in `transpose` is reported as `ValueError`.  (The Python code raises
-`IndexError` in both cases, from `self.axes[idx]` in `_get_axis_info`.) -/
+`KeyGood a k` (Proofs/C10Pos.lean): `k` is the name of a dimension of `a` or a position in `[-ndim, ndim)`; by
+`keyGood_resolves` this is `∃ d, Resolves a k d`.  `keyErr k` is `ValueError` for a name (`tuple.index`) and `IndexError`
+for a position (`list.__getitem__`). -/
 
-example : (swapaxes exC10 (.pos 7) (.pos 9)).toOption.map (·.dims) = some ["x", "y", "z"] := by decide
+theorem keyGood_resolves {α} (a : DimArray α) (k : DimKey) : KeyGood a k ↔ ∃ d, Resolves a k d :=
+  keyGood_iff_resolves a k
 
-example : (match transpose exC10 (some [.pos 7, .pos 0, .pos 1]) with
-    | .error e => some e | .ok _ => none) = some Err.value := by decide
+/-- a position outside `[-ndim, ndim)` designates no dimension, whatever the rank -/
+theorem pos_out_of_range_not_good {α} (a : DimArray α) (i : Int)
+    (hr : i < -(a.ndim : Int) ∨ i ≥ (a.ndim : Int)) : ¬ KeyGood a (.pos i) := by
+  intro h
+  have h' : -(a.ndim : Int) ≤ i ∧ i < (a.ndim : Int) := h
+  omega
+
+/-- **transpose, keys examined left to right**: when the keys before `k` designate dimensions and `k` does not, the
+call is refused with `k`'s error class (whatever follows: further bad keys, too few / too many keys, repetitions). -/
+theorem transpose_first_bad_key {α} (a : DimArray α) (pre : List DimKey) (k : DimKey) (post : List DimKey)
+    (hpre : ∀ x ∈ pre, ∃ d, Resolves a x d) (hk : ¬ ∃ d, Resolves a k d) :
+    transpose a (some (pre ++ k :: post)) = .error (keyErr k) :=
+  transpose_first_bad a pre k post (fun x hx => (keyGood_iff_resolves a x).mpr (hpre x hx))
+    (fun h => hk ((keyGood_iff_resolves a k).mp h))
+
+/-- **transpose refuses a position out of range**, for every rank and every array: the call fails, with `IndexError`
+unless an unknown name comes first (`ValueError`); with known names only it is `IndexError`. -/
+theorem transpose_pos_out_of_range {α} (a : DimArray α) (ks : List DimKey) (i : Int) (hi : DimKey.pos i ∈ ks)
+    (hr : i < -(a.ndim : Int) ∨ i ≥ (a.ndim : Int)) :
+    (transpose a (some ks) = .error .index ∨ transpose a (some ks) = .error .value) ∧
+    ((∀ s, DimKey.name s ∈ ks → s ∈ a.dims) → transpose a (some ks) = .error .index) := by
+  obtain ⟨pre, k, post, e, h1, h2⟩ := split_first_bad (KeyGood a) ks ⟨_, hi, pos_out_of_range_not_good a i hr⟩
+  have ht := transpose_first_bad a pre k post h1 h2
+  rw [← e] at ht
+  refine ⟨?_, ?_⟩
+  · rw [ht]; cases k <;> simp [keyErr]
+  · intro hn
+    rw [ht]
+    cases k with
+    | name s => exact absurd (hn s (by rw [e]; simp)) h2
+    | pos j => rfl
+
+/-- **transpose succeeds IFF the keys resolve to a permutation of the dimensions** (names, positions, negative
+positions, mixed), and then the result is the one `transpose_keys_spec` describes. -/
+theorem transpose_ok_iff {α} (a : DimArray α) (hn : a.dims.Nodup) (ks : List DimKey) (hne : ks ≠ []) :
+    (∃ r, transpose a (some ks) = .ok r) ↔
+      ∃ q, IsPerm q a.ndim ∧ ks.length = q.length ∧
+        ∀ k (h1 : k < ks.length) (h2 : k < q.length), Resolves a ks[k] q[k] := by
+  constructor
+  · rintro ⟨r, hr⟩
+    obtain ⟨q, h1, h2, h3, _⟩ := transpose_ok_inv a ks hne r hr
+    exact ⟨q, h1, h2, h3⟩
+  · rintro ⟨q, h1, h2, h3⟩
+    exact ⟨_, transpose_keys_ok a hn ks hne q h1 h2 h3⟩
+
+/-- **swapaxes refuses a position out of range**: as first operand always with `IndexError`; as second operand with
+`IndexError` when the first operand designates a dimension (else the first operand's error class). -/
+theorem swapaxes_pos_out_of_range {α} (a : DimArray α) (k : DimKey) (i : Int)
+    (hr : i < -(a.ndim : Int) ∨ i ≥ (a.ndim : Int)) :
+    swapaxes a (.pos i) k = .error .index ∧
+    ((∃ d, Resolves a k d) → swapaxes a k (.pos i) = .error .index) ∧
+    ((¬ ∃ d, Resolves a k d) → swapaxes a k (.pos i) = .error (keyErr k)) := by
+  have hb := pos_out_of_range_not_good a i hr
+  refine ⟨(swapaxes_first_bad a (.pos i) k).1 hb, fun hk => ?_, fun hk => ?_⟩
+  · exact (swapaxes_first_bad a k (.pos i)).2 ((keyGood_iff_resolves a k).mpr hk) hb
+  · exact (swapaxes_first_bad a k (.pos i)).1 (fun h => hk ((keyGood_iff_resolves a k).mp h))
+
+/-- **swapaxes succeeds IFF both keys designate dimensions** -/
+theorem swapaxes_ok_iff {α} (a : DimArray α) (hn : a.dims.Nodup) (k1 k2 : DimKey) :
+    (∃ r, swapaxes a k1 k2 = .ok r) ↔ (∃ d1, Resolves a k1 d1) ∧ (∃ d2, Resolves a k2 d2) := by
+  constructor
+  · rintro ⟨r, hr⟩
+    by_cases h1 : KeyGood a k1
+    · by_cases h2 : KeyGood a k2
+      · exact ⟨(keyGood_iff_resolves a k1).mp h1, (keyGood_iff_resolves a k2).mp h2⟩
+      · rw [(swapaxes_first_bad a k1 k2).2 h1 h2] at hr; cases hr
+    · rw [(swapaxes_first_bad a k1 k2).1 h1] at hr; cases hr
+  · rintro ⟨⟨d1, h1⟩, ⟨d2, h2⟩⟩
+    exact ⟨_, swapaxes_ok a hn k1 k2 d1 d2 h1 h2⟩
+
+/-- **rollaxis refuses a position out of range** with `IndexError`, whatever `start` is; and a `start` outside
+`[-ndim, ndim]` with NumPy's `AxisError` (an `IndexError`) when the axis designates a dimension. -/
+theorem rollaxis_pos_out_of_range {α} (a : DimArray α) (i : Int) (start : Int)
+    (hr : i < -(a.ndim : Int) ∨ i ≥ (a.ndim : Int)) : rollaxis a (.pos i) start = .error .index :=
+  rollaxis_bad_key a (.pos i) start (pos_out_of_range_not_good a i hr)
+
+theorem rollaxis_start_out_of_range {α} (a : DimArray α) (k : DimKey) (start : Int) (hk : ∃ d, Resolves a k d)
+    (hs : start < -(a.ndim : Int) ∨ start > (a.ndim : Int)) : rollaxis a k start = .error .index :=
+  rollaxis_bad_start a k start ((keyGood_iff_resolves a k).mpr hk) hs
+
+/-- **rollaxis succeeds IFF the key designates a dimension and `start` lies in `[-ndim, ndim]`** -/
+theorem rollaxis_ok_iff {α} (a : DimArray α) (hn : a.dims.Nodup) (k : DimKey) (start : Int) :
+    (∃ r, rollaxis a k start = .ok r) ↔
+      (∃ d, Resolves a k d) ∧ -(a.ndim : Int) ≤ start ∧ start ≤ (a.ndim : Int) := by
+  constructor
+  · rintro ⟨r, hr⟩
+    by_cases h1 : KeyGood a k
+    · refine ⟨(keyGood_iff_resolves a k).mp h1, ?_⟩
+      apply Classical.byContradiction
+      intro hs
+      rw [rollaxis_bad_start a k start h1 (by omega)] at hr
+      cases hr
+    · rw [rollaxis_bad_key a k start h1] at hr; cases hr
+  · rintro ⟨⟨d, hd⟩, hs1, hs2⟩
+    by_cases c : start < 0
+    · exact ⟨_, rollaxis_ok a hn k start d (start + (a.ndim : Int)).toNat hd (Or.inr ⟨by omega, by omega⟩)⟩
+    · exact ⟨_, rollaxis_ok a hn k start d start.toNat hd (Or.inl ⟨by omega, by omega⟩)⟩
+
+/-- **squeeze(axis) / repeat(values, axis) refuse a position out of range** with `IndexError` -/
+theorem squeeze_pos_out_of_range {α} (a : DimArray α) (i : Int)
+    (hr : i < -(a.ndim : Int) ∨ i ≥ (a.ndim : Int)) : squeeze a (some (.pos i)) = .error .index := by
+  have := axisPos_pos_out_of_range a.axes i hr
+  simp only [squeeze, this, bind, Except.bind]
+
+theorem repeat_pos_out_of_range {α} (a : DimArray α) (newax : Axis) (i : Int)
+    (hr : i < -(a.ndim : Int) ∨ i ≥ (a.ndim : Int)) : repeatAxis a newax (.pos i) = .error .index := by
+  have := axisPos_pos_out_of_range a.axes i hr
+  simp only [repeatAxis, this, bind, Except.bind]
+
+/-- **squeeze(axis) succeeds IFF the key designates a dimension with a single label** (otherwise: the key's error class
+for a key that designates nothing, `ValueError` for a longer dimension) -/
+theorem squeeze_ok_iff {α} (a : DimArray α) (hn : a.dims.Nodup) (k : DimKey) :
+    (∃ r, squeeze a (some k) = .ok r) ↔ ∃ d, Resolves a k d ∧ (a.axes.getD d default).size = 1 := by
+  by_cases hg : KeyGood a k
+  · obtain ⟨d, hd⟩ := (keyGood_iff_resolves a k).mp hg
+    have hp := axisPos_good a k d hd hn
+    by_cases hs : (a.axes.getD d default).size = 1
+    · have hs2 : (a.axes[d]?.getD default).size = 1 := by rw [← List.getD_eq_getElem?_getD]; exact hs
+      refine ⟨fun _ => ⟨d, hd, hs⟩, fun _ => ?_⟩
+      simp [squeeze, hp, bind, Except.bind, hs2, pure, Except.pure]
+    · have hs2 : ¬ (a.axes[d]?.getD default).size = 1 := by rw [← List.getD_eq_getElem?_getD]; exact hs
+      refine ⟨fun ⟨r, hr⟩ => ?_, fun ⟨d', hd', hs'⟩ => ?_⟩
+      · simp [squeeze, hp, bind, Except.bind, hs2] at hr
+      · have := axisPos_good a k d' hd' hn
+        rw [hp] at this
+        cases this
+        exact absurd hs' hs
+  · have hp := axisPos_bad a k hg
+    refine ⟨fun ⟨r, hr⟩ => ?_, fun ⟨d, hd, _⟩ => absurd ((keyGood_iff_resolves a k).mpr ⟨d, hd⟩) hg⟩
+    simp [squeeze, hp, bind, Except.bind] at hr
+
+/-- **repeat succeeds IFF the key designates a dimension with a single label** -/
+theorem repeat_ok_iff {α} (a : DimArray α) (hn : a.dims.Nodup) (newax : Axis) (k : DimKey) :
+    (∃ r, repeatAxis a newax k = .ok r) ↔ ∃ d, Resolves a k d ∧ (a.axes.getD d default).size = 1 := by
+  by_cases hg : KeyGood a k
+  · obtain ⟨d, hd⟩ := (keyGood_iff_resolves a k).mp hg
+    have hp := axisPos_good a k d hd hn
+    by_cases hs : (a.axes.getD d default).size = 1
+    · have hs2 : (a.axes[d]?.getD default).size = 1 := by rw [← List.getD_eq_getElem?_getD]; exact hs
+      refine ⟨fun _ => ⟨d, hd, hs⟩, fun _ => ?_⟩
+      simp [repeatAxis, hp, bind, Except.bind, hs2, pure, Except.pure]
+    · have hs2 : ¬ (a.axes[d]?.getD default).size = 1 := by rw [← List.getD_eq_getElem?_getD]; exact hs
+      refine ⟨fun ⟨r, hr⟩ => ?_, fun ⟨d', hd', hs'⟩ => ?_⟩
+      · simp [repeatAxis, hp, bind, Except.bind, hs2] at hr
+      · have := axisPos_good a k d' hd' hn
+        rw [hp] at this
+        cases this
+        exact absurd hs' hs
+  · have hp := axisPos_bad a k hg
+    refine ⟨fun ⟨r, hr⟩ => ?_, fun ⟨d, hd, _⟩ => absurd ((keyGood_iff_resolves a k).mpr ⟨d, hd⟩) hg⟩
+    simp [repeatAxis, hp, bind, Except.bind] at hr
+
+/-- **the three spellings of a dimension**: dimension `d` (of `ndim`) named `s` is designated by the position `d`, by
+the negative position `d - ndim` and by the name `s` -/
+theorem resolves_spellings {α} (a : DimArray α) (d : Nat) (hd : d < a.ndim) (s : String) (hs : a.dims[d]? = some s) :
+    Resolves a (.pos (d : Int)) d ∧ Resolves a (.pos ((d : Int) - (a.ndim : Int))) d ∧ Resolves a (.name s) d :=
+  ⟨⟨hd, Or.inl rfl⟩, ⟨hd, Or.inr rfl⟩, ⟨hd, hs⟩⟩
+
+/-- **a valid negative position `d - ndim` is interchangeable with `d` and with the dimension's name** in swapaxes
+(either operand), rollaxis (every `start`, refused ones included), squeeze and repeat: the calls give the same outcome. -/
+theorem neg_position_interchangeable {α} (a : DimArray α) (hw : a.WF) (d : Nat) (hd : d < a.ndim) (s : String)
+    (hs : a.dims[d]? = some s) (k k' : DimKey)
+    (hk : k = .pos (d : Int) ∨ k = .pos ((d : Int) - (a.ndim : Int)) ∨ k = .name s)
+    (hk' : k' = .pos (d : Int) ∨ k' = .pos ((d : Int) - (a.ndim : Int)) ∨ k' = .name s) :
+    (∀ k2 d2, Resolves a k2 d2 → swapaxes a k k2 = swapaxes a k' k2 ∧ swapaxes a k2 k = swapaxes a k2 k') ∧
+    (∀ start, rollaxis a k start = rollaxis a k' start) ∧
+    squeeze a (some k) = squeeze a (some k') ∧
+    (∀ newax, repeatAxis a newax k = repeatAxis a newax k') := by
+  obtain ⟨r1, r2, r3⟩ := resolves_spellings a d hd s hs
+  have hr : Resolves a k d := by rcases hk with rfl | rfl | rfl <;> assumption
+  have hr' : Resolves a k' d := by rcases hk' with rfl | rfl | rfl <;> assumption
+  have hp := axisPos_good a k d hr hw.2.1
+  have hp' := axisPos_good a k' d hr' hw.2.1
+  refine ⟨fun k2 d2 h2 => ⟨swapaxes_keys_interchangeable a hw k k2 k' k2 d d2 hr h2 hr' h2,
+    swapaxes_keys_interchangeable a hw k2 k k2 k' d2 d h2 hr h2 hr'⟩, fun start => ?_, ?_, fun newax => ?_⟩
+  · by_cases c : -(a.ndim : Int) ≤ start ∧ start ≤ (a.ndim : Int)
+    · by_cases c0 : start < 0
+      · rw [rollaxis_ok a hw.2.1 k start d (start + (a.ndim : Int)).toNat hr (Or.inr ⟨by omega, by omega⟩),
+          rollaxis_ok a hw.2.1 k' start d (start + (a.ndim : Int)).toNat hr' (Or.inr ⟨by omega, by omega⟩)]
+      · rw [rollaxis_ok a hw.2.1 k start d start.toNat hr (Or.inl ⟨by omega, by omega⟩),
+          rollaxis_ok a hw.2.1 k' start d start.toNat hr' (Or.inl ⟨by omega, by omega⟩)]
+    · rw [rollaxis_bad_start a k start ((keyGood_iff_resolves a k).mpr ⟨d, hr⟩) (by omega),
+        rollaxis_bad_start a k' start ((keyGood_iff_resolves a k').mpr ⟨d, hr'⟩) (by omega)]
+  · simp only [squeeze, hp, hp']
+  · simp only [repeatAxis, hp, hp']
+
+/-- the same for transpose: in a request whose keys resolve to a permutation, any key may be respelled -/
+theorem transpose_neg_position_interchangeable {α} (a : DimArray α) (hw : a.WF) (ks : List DimKey) (hne : ks ≠ [])
+    (q : List Nat) (hq : IsPerm q a.ndim) (hl : ks.length = q.length)
+    (h : ∀ k (h1 : k < ks.length) (h2 : k < q.length), Resolves a ks[k] q[k])
+    (j : Nat) (hj : j < q.length) (s : String) (hs : a.dims[q[j]]? = some s) :
+    transpose a (some ks) = transpose a (some (ks.set j (.pos (q[j] : Int)))) ∧
+    transpose a (some ks) = transpose a (some (ks.set j (.pos ((q[j] : Int) - (a.ndim : Int))))) ∧
+    transpose a (some ks) = transpose a (some (ks.set j (.name s))) := by
+  have hd : q[j] < a.ndim := hq.2.2 _ (List.getElem_mem hj)
+  obtain ⟨r1, r2, r3⟩ := resolves_spellings a q[j] hd s hs
+  have key : ∀ k', Resolves a k' q[j] → transpose a (some ks) = transpose a (some (ks.set j k')) := by
+    intro k' hk'
+    apply transpose_keys_interchangeable a hw ks (ks.set j k') hne q hq hl (by simpa using hl) h
+    intro k h1 h2
+    rw [List.getElem_set]
+    split
+    · rename_i e; subst e; exact hk'
+    · exact h k (by simpa using h1) h2
+  exact ⟨key _ r1, key _ r2, key _ r3⟩
+
+/-! ### positions out of range, on the concrete array -/
+
+example : swapaxes exC10 (.pos 7) (.pos 9) = .error .index :=
+  (swapaxes_pos_out_of_range exC10 (.pos 9) 7 (by decide)).1
+
+example : transpose exC10 (some [.pos 7, .pos 0, .pos 1]) = .error .index :=
+  (transpose_pos_out_of_range exC10 _ 7 (by simp) (by decide)).2 (by simp)
+
+/-- the order of detection: an unknown name BEFORE the bad position gives `ValueError`, after it `IndexError` -/
+example : transpose exC10 (some [.name "q", .pos 7, .pos 1]) = .error .value ∧
+    transpose exC10 (some [.pos 7, .name "q", .pos 1]) = .error .index :=
+  ⟨transpose_first_bad exC10 [] (.name "q") [.pos 7, .pos 1] (fun _ hx => by cases hx) (by decide),
+   transpose_first_bad exC10 [] (.pos 7) [.name "q", .pos 1] (fun _ hx => by cases hx) (by decide)⟩
+
+/-- `*_ok_iff` is not vacuous: a mixed request that resolves to the permutation `[2, 0, 1]` -/
+example : ∃ r, transpose exC10 (some [.name "z", .pos (-3), .pos 1]) = .ok r :=
+  (transpose_ok_iff exC10 exC10_wf.2.1 _ (by simp)).mpr ⟨[2, 0, 1], ⟨rfl, by decide, by decide⟩, rfl, by
+    intro k h1 h2
+    have : k = 0 ∨ k = 1 ∨ k = 2 := by simp at h1; omega
+    rcases this with rfl | rfl | rfl
+    · show Resolves exC10 (.name "z") 2
+      exact ⟨by decide, rfl⟩
+    · show Resolves exC10 (.pos (-3)) 0
+      exact ⟨by decide, Or.inr (by decide)⟩
+    · show Resolves exC10 (.pos 1) 1
+      exact ⟨by decide, Or.inl rfl⟩⟩
+
+/-- a request that designates the same dimension twice does not resolve to a permutation: refused -/
+example : ¬ ∃ r, swapaxes exC10 (.pos 3) (.name "x") = .ok r := by
+  rw [swapaxes_ok_iff exC10 exC10_wf.2.1]
+  rintro ⟨⟨d, hd, h⟩, _⟩
+  have h' : (3 : Int) = (d : Int) ∨ (3 : Int) = (d : Int) - (exC10.ndim : Int) := h
+  have : exC10.ndim = 3 := rfl
+  omega
+
+/-- the hypothesis `a.dims.Nodup` of `swapaxes_ok` / the `*_ok_iff` theorems is needed: with a dimension name twice,
+the name designates the second dimension too (`Resolves`) but the library takes the first one (`dims.index`), and
+`squeeze_ok_iff` fails: dimension 1 is designated by "x" and has one label, yet the call is refused -/
+theorem squeeze_ok_iff_counterexample :
+    let a : DimArray Nat := { axes := [{ name := "x", labels := [.num 1, .num 2], kind := .i }, { name := "x", labels := [.num 1], kind := .i }],
+                              vals := { shape := [2, 1], get := fun _ => 0 }, vkind := .i }
+    (∃ d, Resolves a (.name "x") d ∧ (a.axes.getD d default).size = 1) ∧
+    squeeze a (some (.name "x")) = .error .value := by
+  exact ⟨⟨1, ⟨by decide, rfl⟩, rfl⟩, rfl⟩
 
 end DimModel
